@@ -83,6 +83,10 @@ func (w *World) lemmaInstance(use *SExpr, env *SpecEnv) *Term {
 		body := w.lemmaInstance(use.Args[0], env.with(extra))
 		return &Term{Op: "forall", BVars: bvs, S: SBool, Args: []*Term{body}}
 	}
+	if use.Kind == "call" && use.Args[0].Kind == "field" && use.Args[0].Args[0].Kind == "ident" {
+		// pkg.lemma(args)
+		use = &SExpr{Kind: "call", Args: append([]*SExpr{{Kind: "ident", Name: use.Args[0].Name}}, use.Args[1:]...)}
+	}
 	if use.Kind != "call" || use.Args[0].Kind != "ident" {
 		panic("use: expected lemma application, got " + use.String())
 	}
@@ -217,7 +221,10 @@ func (w *World) verifyFunc(fi *FuncInfo, fc *FuncContract) (ex *Exec, err error)
 			ex.inputs = append(ex.inputs, ModelVar{Name: name, Term: c, GoT: v.Type()})
 			// pointer to scalar: ghost cell
 			if pt, ok := v.Type().Underlying().(*types.Pointer); ok {
-				if _, isBasic := pt.Elem().Underlying().(*types.Basic); isBasic {
+				_, isBasic := pt.Elem().Underlying().(*types.Basic)
+				_, isPtr := pt.Elem().Underlying().(*types.Pointer)
+				_, isIface := pt.Elem().Underlying().(*types.Interface)
+				if isBasic || isPtr || isIface {
 					cs := w.sortOf(pt.Elem())
 					cell := ex.freshInput("cell_"+name, cs)
 					st.ghost["*"+name] = tv(cell, pt.Elem())
@@ -589,6 +596,17 @@ func (ex *Exec) convert(st *State, x *Val, to types.Type, where string) *Val {
 		r := *x
 		r.GoT = to
 		return &r
+	case x.T.S.Kind == KUnint && x.T.S.Name == "Str" && ts.IsSlice:
+		// []byte(s): a fresh slice with the bytes of s
+		r := mk("bytes_of_str", ts, x.T)
+		ex.assume(st, tAnd(tEq(tField(r, "len"), mk("strlen", SInt, x.T)), tEq(tField(r, "off"), intLit(0)), mk("<=", SBool, intLit(0), tField(r, "len"))))
+		v := tv(r, to)
+		v.FreshSlice = true
+		return v
+	case x.T.S.IsSlice && ts.Kind == KUnint && ts.Name == "Str":
+		r := mk("str_of_bytes", ts, x.T)
+		ex.assume(st, tEq(mk("strlen", SInt, r), tField(x.T, "len")))
+		return tv(r, to)
 	}
 	panic(unsupported("conversion to " + to.String() + " at " + where))
 }
@@ -984,9 +1002,17 @@ func (ex *Exec) applyContract(st *State, cfi *FuncInfo, cfc *FuncContract, recv 
 	type cellArg struct {
 		pname string
 		obj   types.Object
+		hb    *heapBase
 	}
 	var cells []cellArg
 	bindCell := func(pname string, a *Val) {
+		if a != nil && a.LocHeap != nil {
+			cur := ex.fieldVal(st, a.LocHeap.ref, a.LocHeap.owner, a.LocHeap.field)
+			names["*"+pname] = cur
+			oldNames["*"+pname] = cur
+			cells = append(cells, cellArg{pname: pname, hb: a.LocHeap})
+			return
+		}
 		if a != nil && a.Loc != nil {
 			cur := ex.lookupVar(st, a.Loc)
 			names["*"+pname] = cur
@@ -994,7 +1020,7 @@ func (ex *Exec) applyContract(st *State, cfi *FuncInfo, cfc *FuncContract, recv 
 			if _, isStruct := a.Loc.Type().Underlying().(*types.Struct); isStruct {
 				names[pname] = cur // struct local passed by address: spec sees the value
 			}
-			cells = append(cells, cellArg{pname, a.Loc})
+			cells = append(cells, cellArg{pname: pname, obj: a.Loc})
 		}
 	}
 	if recv != nil {
@@ -1080,6 +1106,17 @@ func (ex *Exec) applyContract(st *State, cfi *FuncInfo, cfc *FuncContract, recv 
 			if a == "*"+ca.pname || strings.HasPrefix(a, ca.pname+".") || a == ca.pname {
 				assigned = true
 			}
+		}
+		if assigned && ca.hb != nil {
+			cur := ex.fieldVal(st, ca.hb.ref, ca.hb.owner, ca.hb.field)
+			nv := tv(ex.fresh("cell_"+ca.pname, cur.T.S), cur.GoT)
+			ex.assume(st, ex.ptrTypeFact(nv.T, cur.GoT))
+			if ex.allocates && nv.T.S.Eq(SRef) {
+				ex.assume(st, tOr(tEq(nv.T, intLit(0)), ex.isAlloc(st, nv.T)))
+			}
+			ex.setField(st, ca.hb.ref, ca.hb.owner, ca.hb.field, nv, where)
+			post["*"+ca.pname] = nv
+			continue
 		}
 		if assigned {
 			cur := ex.lookupVar(st, ca.obj)
@@ -1342,6 +1379,9 @@ func (ex *Exec) callWithClosure(st *State, cn int, cfi *FuncInfo, cfc *FuncContr
 		cur := body.vars[obj]
 		body.vars[obj] = tv(ex.fresh(obj.Name(), cur.T.S), cur.GoT)
 	}
+	if closureWritesHeap(ex, lit) {
+		ex.havocHeap(body, lit)
+	}
 	seenB := ex.fresh("seen", setSort)
 	iB := ex.fresh("idx", SInt)
 	ienv := env.with(map[string]*Val{ip.IdxVar: tv(iB, types.Typ[types.Int])})
@@ -1411,6 +1451,10 @@ func (ex *Exec) callWithClosure(st *State, cn int, cfi *FuncInfo, cfc *FuncContr
 		cur := st.vars[obj]
 		st.vars[obj] = tv(ex.fresh(obj.Name(), cur.T.S), cur.GoT)
 	}
+	if closureWritesHeap(ex, lit) {
+		// heap stores inside the closure: every heap field the function may write is unknown afterwards
+		ex.havocHeap(st, lit)
+	}
 	seenF := ex.fresh("seen", setSort)
 	stoppedF := ex.fresh("stopped", SBool)
 	bvCounter++
@@ -1474,4 +1518,14 @@ func mentionsAny(t *Term, vs []*Term) bool {
 		}
 	})
 	return found
+}
+
+// closureWritesHeap: does the function literal (syntactically) store through a pointer / into an object or call
+// something with a modifies clause?
+func closureWritesHeap(ex *Exec, lit *ast.FuncLit) bool {
+	saved := ex.heapMayWrite
+	ex.collectHeapWrites(lit.Body)
+	n := len(ex.heapMayWrite)
+	ex.heapMayWrite = saved
+	return n > 0
 }
